@@ -119,7 +119,13 @@ def run(ctx):
         j1 = CAL.jdn(y, 1, 1)
         f0 = j1 - (weekday(j1) - start) % 7
         return (f - f0) // 7
-    table(ctx, R, 'SolarWeek::get_index_in_year', [(y, m, i, s) for (y, m) in [(2024, 1), (2024, 2), (2024, 12), (2026, 3), (2021, 12)] for i in (0, 3) for s in (0, 1, 4)],
+    def last_week(y, m, s):
+        ds = month_days(y, m)
+        return ((weekday(ds[0]) - s) % 7 + len(ds) + 6) // 7 - 1
+    iy_dom = [(y, m, i, s) for (y, m) in [(2024, 1), (2024, 2), (2024, 12), (2026, 3), (2021, 12)] for i in (0, 3) for s in (0, 1, 4)]
+    # the last week of December for every week start: a leap year whose January 1 is the weekday before the week start spans 54 weeks (2000 / Sunday, 2012 / Monday, 1972 / Sunday)
+    iy_dom += [(y, 12, last_week(y, 12, s), s) for y in (1972, 2000, 2012, 2023, 2024, 1582) for s in range(7)]
+    table(ctx, R, 'SolarWeek::get_index_in_year', sorted(set(iy_dom)),
           idx_in_year, idx_orc, 'index in year counts weeks from the one containing January 1', str, fn_site(p, 'SolarWeek::get_index_in_year'))
 
     # ---- lunar weeks on scenario months (incl. leap months)
